@@ -56,6 +56,44 @@ func (c *c15) organismBinary() {
 			continue
 		}
 		sb, sp := st.FieldPath()
+		if al, isLocal := s.Args[i].(*ssa.Alloc); isLocal && len(path) == 1 {
+			// scanned into a local first (the receiver is updated only after everything was decoded): the local's value
+			// must reach the same field on every path that does not end in an error
+			where, why := "", "the local it is scanned into is never stored into "+ps
+			for _, fs := range FieldStores(ufn, wt.Obj.(*types.Var)) {
+				if utm.Of(fs.Addr.(*ssa.FieldAddr).X).Op != "recv" {
+					continue
+				}
+				ld, isLoad := fs.Val.(*ssa.UnOp)
+				if !isLoad || ld.Op != token.MUL || ld.X != ssa.Value(al) {
+					why = "the field " + ps + " receives " + utm.Of(fs.Val).String() + ", not the value scanned at this position"
+					where = ""
+					break
+				}
+				if !instrBefore(s.Call, ld) {
+					why = "the local is copied into " + ps + " before it is scanned"
+					continue
+				}
+				if g := nonErrorGuard(utm, fs.Block()); g != "" {
+					why = ps + " is updated only under the condition " + g
+					continue
+				}
+				where = p.Pos(fs.Pos())
+			}
+			// nothing else writes the local between the scan and the copy
+			nStores := 0
+			for _, ref := range *al.Referrers() {
+				if x, isSt := ref.(*ssa.Store); isSt && x.Addr == ssa.Value(al) && !instrBefore(x, s.Call) {
+					nStores++ // (an initialisation before the scan is overwritten by it)
+				}
+			}
+			if where != "" && nStores > 0 {
+				where, why = "", "the local scanned at this position is also assigned elsewhere"
+			}
+			r.Check(where != "", cons, p.Pos(s.Call.Pos()), ps+" written and scanned at the same position (through a local copied into the field at "+where+")",
+				fmt.Sprintf("position %d of the header holds %s: %s", i, ps, why))
+			continue
+		}
 		r.Check(sb != nil && sb.Op == "recv" && strings.Join(sp, ".") == ps, cons, p.Pos(s.Call.Pos()), ps+" written and scanned at the same position",
 			fmt.Sprintf("position %d of the header holds %s but is scanned into %s", i, ps, st))
 	}
@@ -85,8 +123,305 @@ func (c *c15) organismBinary() {
 		}
 		okR = idOK && stored && stripPtr(a[0]) == stripPtr(s.Stream) && instrBefore(s.Call, ci)
 	}
+	var lastWrite ssa.Instruction = w.Call
+	for _, ci := range CallsTo(mfn, gw) {
+		lastWrite = ci
+	}
+	c.organismBytes(mfn, w, lastWrite)
 	r.Check(okW, label+".genome.write", p.Pos(mfn.Pos()), "the genome is written after the header into the same buffer", "MarshalBinary does not write recv.Genotype after the header into the same buffer")
 	r.Check(okR, label+".genome.read", p.Pos(ufn.Pos()), "the genome is read after the header from the same buffer with the scanned id and stored in Genotype", "UnmarshalBinary does not restore Genotype from the rest of the buffer with the scanned genome id")
+}
+
+// nonErrorGuard: "" when block b runs whenever no error was met before it (every branch outcome it depends on is a
+// comparison of an error value with nil); otherwise the first other condition.
+func nonErrorGuard(tm *Termer, b *ssa.BasicBlock) string {
+	for _, g := range Guards(b) {
+		bin, ok := g.Cond.(*ssa.BinOp)
+		if ok && (bin.Op == token.EQL || bin.Op == token.NEQ) {
+			x, y := bin.X, bin.Y
+			if k, isC := x.(*ssa.Const); isC && k.Value == nil {
+				x, y = y, x
+			}
+			if k, isC := y.(*ssa.Const); isC && k.Value == nil && isErrorType(x.Type()) {
+				continue
+			}
+		}
+		return tm.Of(g.Cond).String()
+	}
+	return ""
+}
+
+func isErrorType(t types.Type) bool {
+	n, ok := t.(*types.Named)
+	return ok && n.Obj().Pkg() == nil && n.Obj().Name() == "error"
+}
+
+// concatOperands flattens a string concatenation a + b + c into its operands.
+func concatOperands(t *Term) []*Term {
+	if t.Op == "bin" && t.Name == "+" && len(t.Args) == 2 {
+		return append(concatOperands(t.Args[0]), concatOperands(t.Args[1])...)
+	}
+	return []*Term{t}
+}
+
+// termString: the value of a constant string term.
+func termString(t *Term) (string, bool) {
+	if t.Op != "const" {
+		return "", false
+	}
+	k, ok := t.V.(*ssa.Const)
+	if !ok {
+		return "", false
+	}
+	return constString(k)
+}
+
+// ownedBytes: v is a byte slice made here for the receiver: nil, make, []byte(string), or append(<owned>, ...).
+func ownedBytes(tm *Termer, v ssa.Value) (bool, string) {
+	switch x := v.(type) {
+	case *ssa.Const:
+		return x.Value == nil, "a constant"
+	case *ssa.MakeSlice:
+		return true, ""
+	case *ssa.Convert:
+		if b, ok := x.X.Type().Underlying().(*types.Basic); ok && b.Info()&types.IsString != 0 {
+			return true, ""
+		}
+		return ownedBytes(tm, x.X)
+	case *ssa.Slice:
+		if al, ok := x.X.(*ssa.Alloc); ok && al.Referrers() != nil && len(*al.Referrers()) == 1 {
+			return true, ""
+		}
+	case *ssa.Call:
+		if base, _, ok := appendCall(x); ok {
+			return ownedBytes(tm, base)
+		}
+		if n, _ := calleeName(&x.Call); n == "bytes.Clone" || n == "slices.Clone" {
+			return true, ""
+		}
+	}
+	return false, tm.Of(v).String()
+}
+
+// organismBytes: what MarshalBinary hands out is the content of the buffer the
+// header (and, by organism.genome.write, the genome) went into, and nobody else
+// can write into the memory behind it afterwards: either the result is a copy
+// made in this call, or the buffer is allocated by this call and is not handed
+// to anything that keeps it (a pooled/shared buffer is rewritten by the next
+// MarshalBinary while the earlier binary form is still in use).
+func (c *c15) organismBytes(mfn *ssa.Function, w fmtCall, lastWrite ssa.Instruction) {
+	p, r := c.p, c.r
+	label := "organism.bytes"
+	buf := stripPtr(w.Stream)
+	// the values returned as the binary form
+	type res struct {
+		v   ssa.Value
+		ret *ssa.Return
+	}
+	var results []res
+	Instrs(mfn, func(_ *ssa.BasicBlock, _ int, in ssa.Instruction) {
+		ret, ok := in.(*ssa.Return)
+		if !ok || len(ret.Results) == 0 {
+			return
+		}
+		seen := map[ssa.Value]bool{}
+		var leaves func(v ssa.Value)
+		leaves = func(v ssa.Value) {
+			if seen[v] {
+				return
+			}
+			seen[v] = true
+			switch x := v.(type) {
+			case *ssa.Phi:
+				for _, e := range x.Edges {
+					leaves(e)
+				}
+			case *ssa.Const:
+				if x.Value != nil {
+					results = append(results, res{v, ret})
+				}
+			case *ssa.UnOp:
+				// a named result / local kept in memory: everything stored to it
+				if al, ok := x.X.(*ssa.Alloc); ok && x.Op == token.MUL {
+					for _, ref := range *al.Referrers() {
+						if st, ok := ref.(*ssa.Store); ok && st.Addr == ssa.Value(al) {
+							leaves(st.Val)
+						}
+					}
+					return
+				}
+				results = append(results, res{v, ret})
+			default:
+				results = append(results, res{v, ret})
+			}
+		}
+		leaves(ret.Results[0])
+	})
+	bytesOf := func(v ssa.Value) (ssa.Value, bool) { // v = X.Bytes() -> X
+		if sl, ok := v.(*ssa.Slice); ok && sl.Low == nil && sl.High == nil && sl.Max == nil {
+			v = sl.X
+		}
+		cl, ok := v.(*ssa.Call)
+		if !ok {
+			return nil, false
+		}
+		if n, _ := calleeName(&cl.Call); n != "bytes.Buffer.Bytes" || len(cl.Call.Args) != 1 {
+			return nil, false
+		}
+		if !instrBefore(lastWrite, cl) {
+			return nil, false // taken before everything was written: the slice does not cover what is appended later
+		}
+		return stripPtr(cl.Call.Args[0]), true
+	}
+	isFreshSlice := func(v ssa.Value) bool {
+		switch x := v.(type) {
+		case *ssa.Const:
+			return x.Value == nil
+		case *ssa.MakeSlice:
+			return true
+		case *ssa.Convert:
+			k, ok := x.X.(*ssa.Const)
+			return ok && k.Value == nil
+		case *ssa.Slice:
+			// make([]byte, n, K) with constant sizes: a slice of an array allocated here and used for nothing else
+			if al, ok := x.X.(*ssa.Alloc); ok && al.Referrers() != nil && len(*al.Referrers()) == 1 {
+				return true
+			}
+		}
+		return false
+	}
+	// copyOf: v is a copy, made here, of some X.Bytes(): append(<fresh>, X.Bytes()...), bytes.Clone(X.Bytes()), []byte(X.String())
+	copyOf := func(v ssa.Value) (ssa.Value, bool) {
+		if ms, ok := v.(*ssa.MakeSlice); ok {
+			// out := make([]byte, X.Len()); copy(out, X.Bytes())
+			var lenOf ssa.Value
+			if lc, ok := ms.Len.(*ssa.Call); ok {
+				n, _ := calleeName(&lc.Call)
+				if n == "bytes.Buffer.Len" && len(lc.Call.Args) == 1 {
+					lenOf = stripPtr(lc.Call.Args[0])
+				} else if n == "len" && len(lc.Call.Args) == 1 {
+					lenOf, _ = bytesOf(lc.Call.Args[0])
+				}
+			}
+			for _, ref := range *ms.Referrers() {
+				if cc, ok := ref.(*ssa.Call); ok {
+					if n, _ := calleeName(&cc.Call); n == "copy" && len(cc.Call.Args) == 2 && cc.Call.Args[0] == ssa.Value(ms) {
+						if src, ok := bytesOf(cc.Call.Args[1]); ok && lenOf != nil && src == lenOf {
+							return src, true
+						}
+					}
+				}
+			}
+			return nil, false
+		}
+		cl, ok := v.(*ssa.Call)
+		if !ok {
+			if cv, ok := v.(*ssa.Convert); ok {
+				if sc, ok := cv.X.(*ssa.Call); ok {
+					if n, _ := calleeName(&sc.Call); n == "bytes.Buffer.String" && len(sc.Call.Args) == 1 {
+						return stripPtr(sc.Call.Args[0]), true
+					}
+				}
+			}
+			return nil, false
+		}
+		n, _ := calleeName(&cl.Call)
+		switch {
+		case n == "append" && len(cl.Call.Args) == 2 && isFreshSlice(cl.Call.Args[0]):
+			return bytesOf(cl.Call.Args[1])
+		case (n == "bytes.Clone" || n == "slices.Clone") && len(cl.Call.Args) == 1:
+			return bytesOf(cl.Call.Args[0])
+		}
+		return nil, false
+	}
+	if len(results) == 0 {
+		r.Bad(label+".source", p.Pos(mfn.Pos()), "MarshalBinary never returns a binary form")
+		return
+	}
+	okSrc, needPrivate := true, false
+	whySrc := ""
+	for _, rs := range results {
+		if b, ok := bytesOf(rs.v); ok {
+			needPrivate = true
+			if b != buf {
+				okSrc, whySrc = false, "the returned bytes are those of another buffer than the one the header is written to"
+			}
+			continue
+		}
+		if b, ok := copyOf(rs.v); ok {
+			if b != buf {
+				okSrc, whySrc = false, "the returned copy is taken from another buffer than the one the header is written to"
+			}
+			continue
+		}
+		okSrc, whySrc = false, "the returned value "+NewTermer(mfn).Of(rs.v).String()+" is not the content of the buffer the organism was written to"
+	}
+	r.Check(okSrc, label+".source", p.Pos(results[0].ret.Pos()), "the returned binary form is the content of the buffer the header and the genome were written to", "MarshalBinary: "+whySrc)
+	if !okSrc {
+		return
+	}
+	if !needPrivate {
+		r.OK(label+".private", p.Pos(results[0].ret.Pos()), "the binary form is a copy made by this call")
+		return
+	}
+	// the buffer is created by this call ...
+	fresh := false
+	switch x := buf.(type) {
+	case *ssa.Alloc:
+		fresh = true
+	case *ssa.Call:
+		n, _ := calleeName(&x.Call)
+		if (n == "bytes.NewBuffer" && len(x.Call.Args) == 1 && isFreshSlice(x.Call.Args[0])) || n == "bytes.NewBufferString" {
+			fresh = true
+		}
+	}
+	if !fresh {
+		r.Bad(label+".private", p.Pos(w.Call.Pos()), "MarshalBinary returns the bytes of a buffer it did not allocate itself ("+NewTermer(mfn).Of(buf).String()+
+			"): the memory behind the returned binary form stays reachable through that buffer and is rewritten when the buffer is used again (e.g. by the next MarshalBinary taking it from a pool), so an organism's binary form no longer restores that organism")
+		return
+	}
+	// ... and nothing keeps a reference to it: it is only used as the stream of print calls, as the argument of library
+	// writers, and as the receiver of bytes.Buffer methods
+	why := ""
+	var visit func(v ssa.Value, depth int)
+	visit = func(v ssa.Value, depth int) {
+		if v.Referrers() == nil || depth > 3 {
+			return
+		}
+		for _, ref := range *v.Referrers() {
+			switch x := ref.(type) {
+			case *ssa.MakeInterface:
+				visit(x, depth+1)
+			case *ssa.ChangeInterface:
+				visit(x, depth+1)
+			case *ssa.ChangeType:
+				visit(x, depth+1)
+			case *ssa.Store:
+				if x.Val == v {
+					why = "the buffer is stored at " + p.Pos(x.Pos())
+				}
+			case *ssa.MakeClosure:
+				why = "the buffer is captured by a closure at " + p.Pos(x.Pos())
+			case *ssa.Go:
+				why = "the buffer is handed to a goroutine at " + p.Pos(x.Pos())
+			case *ssa.Send, *ssa.MapUpdate:
+				why = "the buffer is sent away at " + p.Pos(ref.Pos())
+			case ssa.CallInstruction:
+				n, _ := calleeName(x.Common())
+				cal := x.Common().StaticCallee()
+				switch {
+				case strings.HasPrefix(n, "fmt.F"), strings.HasPrefix(n, "bytes.Buffer."), strings.HasPrefix(n, "io.WriteString"):
+				case cal != nil && InRepo(cal):
+					// the library's own writers wrap the stream in a writer that lives for the call only
+				default:
+					why = "the buffer is handed to " + n + " at " + p.Pos(x.Pos())
+				}
+			}
+		}
+	}
+	visit(buf, 0)
+	r.Check(why == "", label+".private", p.Pos(w.Call.Pos()), "the buffer behind the returned bytes is allocated by this call and not kept anywhere else",
+		"MarshalBinary returns the bytes of a buffer that outlives the call: "+why+"; a later write into it rewrites the binary form that was returned")
 }
 
 // ---------------------------------------------------------------------------
@@ -134,11 +469,24 @@ func (c *c15) populationIO() {
 		return ok
 	}
 	r.Check(isBuf(consumers[0].Common().Args[0]), label+".reframe.consumer", p.Pos(consumers[0].Pos()), "ReadGenome reads the re-framed buffer", "ReadGenome is not fed with the re-framed buffer")
-	// write sites
+	// the buffer owns its memory: NewBufferString copies the string; NewBuffer(b) builds the buffer ON b, so b must be
+	// storage made for it (a conversion from a string, make, a copy appended to an empty slice). A buffer built on
+	// somebody else's bytes (the scanner's line) is rewritten by its owner while the genome is being collected, and
+	// the writes into the buffer run over the owner's data.
+	if n, _ := calleeName(&bufNew.Call); n == "bytes.NewBuffer" {
+		ok, why := ownedBytes(tm, bufNew.Call.Args[0])
+		r.Check(ok, label+".reframe.private", p.Pos(bufNew.Pos()), "the re-framing buffer is built on storage of its own",
+			"the re-framing buffer is built on bytes it does not own ("+why+"): the owner reuses that memory while the genome is still being collected, and writes into the buffer overwrite the owner's data")
+	} else {
+		r.OK(label+".reframe.private", p.Pos(bufNew.Pos()), "the re-framing buffer holds a copy of its initial text")
+	}
+	// write sites: fmt print calls on the buffer and the buffer's own Write* methods
 	type wsite struct {
 		in      ssa.Instruction
-		newline bool
+		newline bool // the text written ends the line
+		startNL bool // the text written starts with a line break
 		what    string
+		ops     []*Term // the concatenated operands of the text, when known
 	}
 	var sites []wsite
 	// initial content
@@ -154,41 +502,98 @@ func (c *c15) populationIO() {
 		}
 	} else if s, ok := constString(bufNew.Call.Args[0]); ok {
 		initNL = s == "" || strings.HasSuffix(s, "\n")
+	} else if ops := concatOperands(it); len(ops) > 1 {
+		// "genomestart " + rest + "\n"
+		first, _ := termString(ops[0])
+		last, okL := termString(ops[len(ops)-1])
+		initNL = okL && strings.HasSuffix(last, "\n")
+		nonConst := 0
+		for _, o := range ops {
+			if _, isC := termString(o); !isC {
+				nonConst++
+			}
+		}
+		r.Check(strings.HasPrefix(first, "genomestart ") && nonConst == 1, label+".reframe.header", p.Pos(bufNew.Pos()), "the genomestart line is rebuilt from the rest of the original line", "the re-framed header is "+it.String())
 	}
-	sites = append(sites, wsite{bufNew, initNL, "initial content " + initWhat})
+	sites = append(sites, wsite{in: bufNew, newline: initNL, what: "initial content " + initWhat})
 	for _, fc := range calls {
 		if fc.Stream == nil || !isBuf(fc.Stream) {
 			continue
 		}
 		nl := fc.Kind == "println" || (fc.HasFormat && strings.HasSuffix(fc.Format, "\n"))
-		sites = append(sites, wsite{fc.Call, nl, fmt.Sprintf("F%s %q", fc.Kind, fc.Format)})
+		sites = append(sites, wsite{in: fc.Call, newline: nl, startNL: fc.HasFormat && strings.HasPrefix(fc.Format, "\n"), what: fmt.Sprintf("F%s %q", fc.Kind, fc.Format)})
 	}
+	Instrs(fn, func(_ *ssa.BasicBlock, _ int, in ssa.Instruction) {
+		ci, ok := in.(ssa.CallInstruction)
+		if !ok || len(ci.Common().Args) != 2 || !isBuf(ci.Common().Args[0]) {
+			return
+		}
+		n, _ := calleeName(ci.Common())
+		arg := tm.Of(ci.Common().Args[1])
+		switch n {
+		case "bytes.Buffer.WriteByte", "bytes.Buffer.WriteRune":
+			isNL := arg.Op == "const" && arg.Name == "10"
+			sites = append(sites, wsite{in: in, newline: isNL, startNL: isNL, what: n + "(" + arg.String() + ")"})
+		case "bytes.Buffer.WriteString", "bytes.Buffer.Write":
+			for arg.Op == "conv" { // []byte(s)
+				arg = arg.Args[0]
+			}
+			ops := concatOperands(arg)
+			first, okF := termString(ops[0])
+			last, okL := termString(ops[len(ops)-1])
+			sites = append(sites, wsite{in: in, newline: okL && strings.HasSuffix(last, "\n"), startNL: okF && strings.HasPrefix(first, "\n"), what: n + "(" + arg.String() + ")", ops: ops})
+		}
+	})
 	r.Floor("writes into the re-framing buffer", len(sites), 3)
 	for _, s := range sites {
 		if s.newline {
 			r.OK(label+".reframe.line:"+p.Pos(s.in.Pos()), p.Pos(s.in.Pos()), s.what+" ends the line")
 			continue
 		}
-		// no other write may follow before the buffer is consumed
+		// the next thing written must be the line break (a write that starts with one); nothing else may follow before the
+		// buffer is consumed
 		others := map[ssa.Instruction]bool{}
+		breaks := map[ssa.Instruction]bool{}
 		for _, o := range sites {
-			if o.in != s.in {
+			if o.in == s.in {
+				continue
+			}
+			if o.startNL {
+				breaks[o.in] = true
+			} else {
 				others[o.in] = true
 			}
 		}
 		path := FindPath(p, PathQuery{Fn: fn, StartAfter: s.in, FlagBlind: true,
 			Target: func(in ssa.Instruction) bool { return others[in] },
-			Avoid:  func(in ssa.Instruction) bool { return in == consumers[0] }})
-		r.Check(path == nil, label+".reframe.line:"+p.Pos(s.in.Pos()), p.Pos(s.in.Pos()), s.what+" has no newline but is always followed by the genome reader",
+			Avoid:  func(in ssa.Instruction) bool { return in == consumers[0] || breaks[in] }})
+		r.Check(path == nil, label+".reframe.line:"+p.Pos(s.in.Pos()), p.Pos(s.in.Pos()), s.what+" has no newline but is always followed by a line break or by the genome reader",
 			s.what+" does not end in a newline and another write into the buffer can follow before the genome reader consumes it: the next line is glued to this one and dropped by the line-oriented reader", path...)
 	}
 	// lines that are neither header nor trailer nor comment are copied verbatim
+	isLine := func(t *Term) bool {
+		for t.Op == "conv" {
+			t = t.Args[0]
+		}
+		return t.Op == "call" && (t.Name == "bufio.Scanner.Text" || t.Name == "bufio.Scanner.Bytes")
+	}
 	verb := false
 	for _, fc := range calls {
 		if fc.Kind == "println" && fc.Stream != nil && isBuf(fc.Stream) && len(fc.Args) == 1 {
 			if t := tm.Of(fc.Args[0]); t.Op == "call" && t.Name == "bufio.Scanner.Text" {
 				verb = true
 			}
+		}
+	}
+	for _, s := range sites {
+		// buf.WriteString(line) / buf.Write(line) [+ "\n"]; the line break is decided by reframe.line above
+		if len(s.ops) == 0 || !isLine(s.ops[0]) {
+			continue
+		}
+		if len(s.ops) == 1 {
+			verb = true
+		} else if k, isC := termString(s.ops[1]); len(s.ops) == 2 && isC && k == "\n" {
+			verb = true
 		}
 	}
 	r.Check(verb, label+".reframe.copy", p.Pos(fn.Pos()), "record lines are copied verbatim", "record lines are not copied verbatim into the re-framed genome")
@@ -410,7 +815,14 @@ func (c *c15) gobSeq(fn *ssa.Function, enc bool, subjIdx int) ([]gobItem, string
 				// where does the decoded object go?
 				if cal.Signature.Recv() != nil {
 					// local.Decode(dec): the local is later stored into subj.F[i]
-					if al, ok := ci.Call.Args[0].(*ssa.Alloc); ok {
+					if ia, ok := ci.Call.Args[0].(*ssa.IndexAddr); ok {
+						// subj.F[i].Decode(dec): decoded in place
+						if ps, ok := subjPath(tm.Of(ia.X)); ok && inLoop != nil {
+							if idx, _, okc := countsUp(inLoop); okc && ia.Index == idx {
+								it.kind, it.name = "each", ps
+							}
+						}
+					} else if al, ok := ci.Call.Args[0].(*ssa.Alloc); ok {
 						for _, ref := range *al.Referrers() {
 							if u, ok := ref.(*ssa.UnOp); ok && u.Op == token.MUL {
 								for _, use := range *u.Referrers() {
@@ -455,6 +867,65 @@ func (c *c15) gobSeq(fn *ssa.Function, enc bool, subjIdx int) ([]gobItem, string
 	}
 	sort.SliceStable(items, func(i, j int) bool { return instrBefore(items[i].in, items[j].in) })
 	return items, ""
+}
+
+// countsUp: the loop runs its counter over 0, 1, .. while counter < bound. Returns the value that is the counter
+// inside the body and the bound. Two forms: `for i := 0; i < B; i++` (phi[0, phi+1], test phi < B) and the
+// index form of `for i := range xs` (phi[-1, inc], inc = phi+1, test inc < len).
+func countsUp(l *Loop) (idx ssa.Value, bound ssa.Value, ok bool) {
+	iff, isIf := l.Header.Instrs[len(l.Header.Instrs)-1].(*ssa.If)
+	if !isIf || !l.Blocks[l.Header.Succs[0]] || l.Blocks[l.Header.Succs[1]] {
+		return nil, nil, false
+	}
+	b, isB := iff.Cond.(*ssa.BinOp)
+	if !isB || b.Op != token.LSS {
+		return nil, nil, false
+	}
+	phiOK := func(ph *ssa.Phi, init string, next ssa.Value) bool {
+		if ph.Block() != l.Header {
+			return false
+		}
+		okInit, okStep := false, false
+		for i, e := range ph.Edges {
+			if !l.Blocks[ph.Block().Preds[i]] {
+				k, isC := e.(*ssa.Const)
+				if !isC || k.Value == nil || k.Value.ExactString() != init {
+					return false
+				}
+				okInit = true
+			} else {
+				if next != nil {
+					if e != next {
+						return false
+					}
+				} else {
+					bo, isBo := e.(*ssa.BinOp)
+					if !isBo || bo.Op != token.ADD || bo.X != ssa.Value(ph) {
+						return false
+					}
+					k, isC := bo.Y.(*ssa.Const)
+					if !isC || k.Value == nil || k.Value.ExactString() != "1" {
+						return false
+					}
+				}
+				okStep = true
+			}
+		}
+		return okInit && okStep
+	}
+	switch x := b.X.(type) {
+	case *ssa.Phi:
+		if phiOK(x, "0", nil) {
+			return x, b.Y, true
+		}
+	case *ssa.BinOp:
+		if ph, isPhi := x.X.(*ssa.Phi); isPhi && x.Op == token.ADD && x.Block() == l.Header {
+			if k, isC := x.Y.(*ssa.Const); isC && k.Value != nil && k.Value.ExactString() == "1" && phiOK(ph, "-1", x) {
+				return x, b.Y, true
+			}
+		}
+	}
+	return nil, nil, false
 }
 
 // stripAmp removes the `&` wrappers the termer puts around local copies (t := xs[i]).
@@ -559,30 +1030,43 @@ func (c *c15) gobPairs() {
 			l := InnermostLoop(Loops(df), it.in.Block())
 			ok := false
 			if l != nil {
-				if iff, isIf := l.Header.Instrs[len(l.Header.Instrs)-1].(*ssa.If); isIf {
-					if b, isB := iff.Cond.(*ssa.BinOp); isB && b.Op == token.LSS {
-						if ph, isPhi := b.X.(*ssa.Phi); isPhi {
-							init, step := false, false
-							for i, e := range ph.Edges {
-								if !l.Blocks[ph.Block().Preds[i]] {
-									if k, ok := e.(*ssa.Const); ok && k.Value != nil && k.Value.ExactString() == "0" {
-										init = true
-									}
-								} else if bo, ok := e.(*ssa.BinOp); ok && bo.Op == token.ADD && bo.X == ph {
-									if k, ok := bo.Y.(*ssa.Const); ok && k.Value != nil && k.Value.ExactString() == "1" {
-										step = true
-									}
+				if _, bound, okc := countsUp(l); okc {
+					// bound = the decoded length local, or the length of the list that was allocated with that length
+					isLenLocal := func(v ssa.Value) bool {
+						u, isU := v.(*ssa.UnOp)
+						if !isU {
+							return false
+						}
+						al, isA := u.X.(*ssa.Alloc)
+						if !isA {
+							return false
+						}
+						for _, li := range ds {
+							if li.kind == "len" && li.name == it.name {
+								if tgt := li.in.(*ssa.Call).Call.Args[1]; stripPtr(tgt) == ssa.Value(al) {
+									return true
 								}
 							}
-							// bound = the decoded length local
-							if u, isU := b.Y.(*ssa.UnOp); isU {
-								if al, isA := u.X.(*ssa.Alloc); isA {
-									for _, li := range ds {
-										if li.kind == "len" && li.name == it.name {
-											if tgt := li.in.(*ssa.Call).Call.Args[1]; stripPtr(tgt) == ssa.Value(al) {
-												ok = init && step
-											}
-										}
+						}
+						return false
+					}
+					if isLenLocal(bound) {
+						ok = true
+					} else if bt := NewTermer(df).Of(bound); bt.Op == "len" {
+						// len(subj.F) where every store into subj.F is make(T, n) with n the decoded length
+						base, path := bt.Args[0].FieldPath()
+						if base != nil && strings.Join(path, ".") == it.name && ((x.decS >= 0 && isParamIdx(base, x.decS)) || (x.decS < 0 && base.Op == "new")) {
+							if fobj, isVar := bt.Args[0].Obj.(*types.Var); isVar {
+								sts := FieldStores(df, fobj)
+								ok = len(sts) > 0
+								for _, st := range sts {
+									v := st.Val
+									if ct, isCT := v.(*ssa.ChangeType); isCT {
+										v = ct.X
+									}
+									ms, isMS := v.(*ssa.MakeSlice)
+									if !isMS || !isLenLocal(ms.Len) || !instrBefore(st, it.in) {
+										ok = false
 									}
 								}
 							}
@@ -685,7 +1169,13 @@ func (c *c15) solverModel() {
 				}
 			}
 		}
-		_ = vt
+		// data.<HF>[i].<G> = n.<f>[i]: the element's field is set in place (same index value on both sides)
+		if at.Op == "field" && at.Args[0].Op == "elem" && len(at.Args[0].Args) > 1 && at.Args[0].Args[0].Op == "field" {
+			el := at.Args[0]
+			if el.Args[0].Args[0].Op == "new" && vt.Op == "elem" && vt.Args[0].Op == "field" && isParamIdx(vt.Args[0].Args[0], 0) && len(vt.Args) > 1 && vt.Args[1].V == el.Args[1].V {
+				holderOf[vt.Args[0].Name] = el.Args[0].Name + "[i]." + at.Name
+			}
+		}
 	})
 	// reader: constructor arguments and later stores, as holder fields
 	rtm := NewTermer(rd)
@@ -696,6 +1186,25 @@ func (c *c15) solverModel() {
 	}
 	args := callArgTerms(rtm, calls[0].Common())
 	holderPath := func(t *Term) string {
+		// make([]T, 0, n) grown by append(list, data.F[i].G) / append(list, &T{..}) for every i
+		if ph, isPhi := t.V.(*ssa.Phi); isPhi && isAppendBuilt(ph) {
+			elem, src, idx, why := appendLoop(rd, rtm, ph)
+			if why != "" || src.Op != "field" {
+				return "?" + t.String()
+			}
+			hf := src.Name
+			vt := rtm.Of(elem)
+			if vt.Op == "field" {
+				el := stripAmp(vt.Args[0])
+				if el.Op == "elem" && el.Args[0].Op == "field" && el.Args[0].Name == hf && len(el.Args) > 1 && el.Args[1].V == idx {
+					return hf + "[i]." + vt.Name
+				}
+			}
+			if vt.Op == "new" || (vt.Op == "un" && vt.Name == "&") {
+				return hf + "[i]{}"
+			}
+			return hf + "[?]"
+		}
 		// data.<F> where data is the decoded local
 		for _, a := range t.Alternatives() {
 			if a.Op == "nil" {
@@ -890,6 +1399,44 @@ func (c *c15) solverModules(mk, rd *ssa.Function, restoredFrom string) {
 		if vb.Op == "elem" && vb.Args[0].Op == "field" && vb.Args[0].Name == "modules" {
 			wmap[ap[0]] = vp[0]
 		}
+	})
+	// a holder element placed by index (make + data.Modules[i] = ...) sits at the index of the module it is built from
+	// (append keeps the order by itself)
+	var srcIdx []*ssa.IndexAddr
+	Instrs(mk, func(_ *ssa.BasicBlock, _ int, in ssa.Instruction) {
+		if ia, ok := in.(*ssa.IndexAddr); ok {
+			if t := mtm.Of(ia.X); t.Op == "field" && t.Name == "modules" && isParamIdx(t.Args[0], 0) {
+				srcIdx = append(srcIdx, ia)
+			}
+		}
+	})
+	mloops := Loops(mk)
+	Instrs(mk, func(b *ssa.BasicBlock, _ int, in ssa.Instruction) {
+		st, ok := in.(*ssa.Store)
+		if !ok {
+			return
+		}
+		ia, ok := st.Addr.(*ssa.IndexAddr)
+		if !ok {
+			return
+		}
+		if t := mtm.Of(ia.X); !(t.Op == "field" && t.Name == "Modules" && t.Args[0].Op == "new") {
+			return
+		}
+		l := InnermostLoop(mloops, b)
+		same, other := 0, 0
+		for _, si := range srcIdx {
+			if l == nil || !l.Blocks[si.Block()] {
+				continue
+			}
+			if si.Index == ia.Index {
+				same++
+			} else {
+				other++
+			}
+		}
+		r.Check(same > 0 && other == 0, label+".position", p.Pos(st.Pos()), "holder.Modules[i] is built from modules[i]",
+			"a holder module is stored at an index that is not the index of the module it is built from: the modules are restored in another order")
 	})
 	rtm := NewTermer(rd)
 	rmap := map[string]string{}
